@@ -262,6 +262,9 @@ func canonicalTable(b []byte) []byte {
 //	                                      written (same key, value / deletion flag, sequence number); no panic, no hang.
 //	                                      -> sweep flips=<n> opened=<m> foreign=<k> panics=<p> [first=<offset>.<bit>:<what>]
 func genSstSweep(g *gen, n int, tier string, w *bufio.Writer) {
+	// one table with more data blocks than the reader's block cache holds (100): lookups in random order keep evicting and
+	// re-fetching blocks; every written key is found with its value, absent keys are not
+	fmt.Fprintf(w, "# case cache\ntcache seed=%d blocks=%d gets=%d\n", g.intn(1<<30), g.pick(130, 180, 260), 4000)
 	for c := 0; c < n; c++ {
 		cnt := g.pick(3, 17, 33, 40, 49, 60) // 1 .. 4 restart points in the (single) data block
 		es := g.sstEntries(cnt, g.pick(4, 12, 40))
@@ -269,6 +272,88 @@ func genSstSweep(g *gen, n int, tier string, w *bufio.Writer) {
 		fmt.Fprintf(w, "tbuild bloom=%d %d %s\n", g.pick(1, 1, 0), cnt, fmtSstEntries(es))
 		fmt.Fprintln(w, "tsweep")
 	}
+}
+
+// cacheStorm: see genSstSweep
+func (x *sstRun) cacheStorm(kv map[string]string) string {
+	g := newGen(int64(atoi(kv["seed"])))
+	blocks, gets := atoi(kv["blocks"]), atoi(kv["gets"])
+	x.n++
+	p := filepath.Join(x.dir, fmt.Sprintf("c%d.sst", x.n))
+	w, err := sstable.NewWriter(p)
+	if err != nil {
+		return "err writer"
+	}
+	// ~7 entries of ~9.5 KB per 64 KB block
+	n := blocks * 7
+	vals := make(map[string]string, n)
+	keys := make([]string, 0, n)
+	for i := 0; i < n; i++ {
+		k := fmt.Sprintf("ck%06d", 2*i)
+		v := string(g.bytesN(9000 + g.intn(1000)))
+		if g.chance(1, 50) {
+			v = ""
+		}
+		if err := w.AddWithSequence([]byte(k), []byte(v), uint64(i+1)); err != nil {
+			w.Abort()
+			return "err add"
+		}
+		vals[k] = v
+		keys = append(keys, k)
+	}
+	if err := w.Finish(); err != nil {
+		return "err finish"
+	}
+	rd, err := sstable.OpenReader(p)
+	if err != nil {
+		return "err open"
+	}
+	defer rd.Close()
+	defer os.Remove(p)
+	wrong, first := 0, ""
+	for i := 0; i < gets; i++ {
+		if g.chance(1, 5) { // an absent key between two written ones
+			k := fmt.Sprintf("ck%06d", 2*g.intn(n)+1)
+			if v, err := rd.Get([]byte(k)); err == nil {
+				wrong++
+				if first == "" {
+					first = fmt.Sprintf("absent_%s_found_len%d", k, len(v))
+				}
+			}
+			continue
+		}
+		k := keys[g.intn(n)]
+		v, err := rd.Get([]byte(k))
+		if err != nil || string(v) != vals[k] {
+			wrong++
+			if first == "" {
+				first = fmt.Sprintf("key_%s_err=%v_len=%d_want_len=%d", k, err != nil, len(v), len(vals[k]))
+			}
+		}
+	}
+	// and a full iteration afterwards
+	it := rd.NewIterator()
+	cnt := 0
+	for it.SeekToFirst(); it.Valid(); it.Next() {
+		if vals[string(it.Key())] != string(it.Value()) {
+			wrong++
+			if first == "" {
+				first = "iter_" + string(it.Key())
+			}
+		}
+		cnt++
+	}
+	if cnt != n {
+		wrong++
+		if first == "" {
+			first = fmt.Sprintf("iter_count_%d_want_%d", cnt, n)
+		}
+	}
+	out := fmt.Sprintf("cache entries=%d gets=%d wrong=%d", n, gets, wrong)
+	if first != "" {
+		out += " first=" + first
+	}
+	return out
 }
 
 func (x *sstRun) sweep() string {
@@ -457,6 +542,8 @@ func (x *sstRun) step(ws []string) (out string) {
 		return fmt.Sprintf("%s %d %d", st, n, crc32.ChecksumIEEE(canonicalTable(data)))
 	case "tsweep":
 		return x.sweep()
+	case "tcache":
+		return x.cacheStorm(parseKV(ws[1:]))
 	case "talter":
 		off, _ := strconv.Atoi(ws[1])
 		xv, _ := strconv.Atoi(ws[2])
